@@ -331,25 +331,38 @@ func c17Reducers() []*c17Reducer {
 
 	// Row.Merge (executeBitmapCall) and Row.Union
 	rowGen := func(rng *vk.Rand, k int) (func(i int) interface{}, string, string, interface{}) {
+		// Each partial result is what one node (or shard) returns: a row over ONE OR SEVERAL
+		// shards; a shard belongs to exactly one partial, and the shard sets of different
+		// partials interleave (node A owns shards 0,2; node B owns 1,3).
 		cols := make([][]uint64, k)
 		var all []uint64
-		shards := rng.Perm(6)
+		shards := rng.Perm(2 * k)
+		next := 0
 		for i := range cols {
-			sh := uint64(shards[i%len(shards)])
-			for n := rng.Intn(5); n > 0; n-- {
-				cols[i] = append(cols[i], sh*ShardWidth+uint64(rng.Intn(50)))
+			nsh := 1
+			if rng.Chance(1, 2) {
+				nsh = 2
+			}
+			for s := 0; s < nsh && next < len(shards); s++ {
+				sh := uint64(shards[next])
+				next++
+				for n := rng.Intn(5); n > 0; n-- {
+					cols[i] = append(cols[i], sh*ShardWidth+uint64(rng.Intn(50)))
+				}
 			}
 			cols[i] = vk.SortedU64(cols[i])
 			all = append(all, cols[i]...)
 		}
-		return func(i int) interface{} { return NewRow(cols[i]...) }, fmt.Sprint(vk.SortedU64(all)), "", cols
+		return func(i int) interface{} { return NewRow(cols[i]...) }, c17RowCanon(vk.SortedU64(all), len(vk.SortedU64(all))), "", cols
 	}
+	// the canonical form is what a client observes: Columns() AS RETURNED (ascending by contract,
+	// so an unsorted result is a difference), and Count().
 	canonRow := func(v interface{}) string {
 		r, _ := v.(*Row)
 		if r == nil {
-			return "[]"
+			return c17RowCanon(nil, 0)
 		}
-		return fmt.Sprint(vk.SortedU64(r.Columns()))
+		return c17RowCanon(r.Columns(), int(r.Count()))
 	}
 	rs = append(rs, &c17Reducer{name: "Row.Merge", canon: canonRow, gen: rowGen,
 		reduce: func(prev, v interface{}) interface{} {
@@ -369,6 +382,13 @@ func c17Reducers() []*c17Reducer {
 			return o.Union(v.(*Row))
 		}})
 	return rs
+}
+
+func c17RowCanon(cols []uint64, count int) string {
+	if len(cols) == 0 {
+		return fmt.Sprintf("[] n=%d", count)
+	}
+	return fmt.Sprintf("%v n=%d", cols, count)
 }
 
 type c17LimitWrap struct {
